@@ -765,21 +765,29 @@ func TestVerifC15(t *testing.T) {
 	retry.Slow = retry.ExpBackOff{BackOff: c15SlowWait, Max: c15SlowWait, Jitter: false, KeepErrs: 10}
 	defer func() { retry.Quick, retry.Slow = oldQ, oldS }()
 
-	out := make([]string, len(lines))
 	par := 32
 	if v, err := strconv.Atoi(strings.TrimSpace(getenvDefault("VERIF_C15_PAR", "32"))); err == nil && v > 0 {
 		par = v
+	}
+	// answers are written as they come, "S <i>" when request i starts and "R <i> <answer>" when it
+	// is done, so that a crash of the process can be attributed to the scripts then running
+	var omu sync.Mutex
+	emit := func(format string, a ...interface{}) {
+		omu.Lock()
+		fmt.Fprintf(w, format, a...)
+		w.Flush()
+		omu.Unlock()
 	}
 	sem := make(chan struct{}, par)
 	var wg sync.WaitGroup
 	for i, line := range lines {
 		f := strings.Fields(line)
 		if f[0] == "consts" {
-			out[i] = fmt.Sprintf("maxConnAttempts=%d maxSendAttempts=%d", maxConnAttempts, maxSendAttempts)
+			emit("R %d maxConnAttempts=%d maxSendAttempts=%d\n", i, maxConnAttempts, maxSendAttempts)
 			continue
 		}
 		if len(f) < 2 {
-			out[i] = "!badrequest"
+			emit("R %d !badrequest\n", i)
 			continue
 		}
 		wg.Add(1)
@@ -787,13 +795,11 @@ func TestVerifC15(t *testing.T) {
 		go func(i int, f []string) {
 			defer wg.Done()
 			defer func() { <-sem }()
-			out[i] = c15RunScript(f[0], f[1] == "1", f[2:])
+			emit("S %d\n", i)
+			emit("R %d %s\n", i, c15RunScript(f[0], f[1] == "1", f[2:]))
 		}(i, f)
 	}
 	wg.Wait()
-	for _, o := range out {
-		fmt.Fprintln(w, o)
-	}
 }
 
 func getenvDefault(k, d string) string {
